@@ -27,6 +27,14 @@ CFG = {
         "quantifier is over all interleavings, which no finite run enumerates."
     ),
     "level_note": (
+        "Round-8 classes (after all older ones, their random streams unchanged): fault-key - a Locks/RLocks on a sharded generic "
+        "locker over a struct key implementing remap.HitGroup/Bs whose list holds, at position >= 1, a key whose Hit()/ToBytes() "
+        "panics; the caller recovers, the call is not a step of the schedule and the following observations must be those of the "
+        "model in which it never happened (nothing stays registered); release-race - several two-key lists whose shards are in "
+        "descending order and one long list over many shards, pairwise disjoint, entered one by one and then released ALL AT ONCE "
+        "from a spin barrier (thousands of bursts); a verdict only from one goroutine snapshot showing a release parked in a mutex "
+        "with every other release finished or parked likewise, recorded as the round `caller unlocks: blocked` (a release of "
+        "disjoint keys never blocks in the model, whatever runs beside it). "
         "case_accept := model_matches && drained, and case_sound is a real theorem: EVERY clause of case_holds is derived "
         "from the replayed run of the LTS (C02_Complete.v: c02_model_matches_holds) - hook counts per key and entry count = "
         "the live callers (bijection between the table's registrations and (caller, key) pairs; zero entries when all are "
@@ -76,7 +84,11 @@ CFG = {
         "ordered schedules on the lockers that route integers by value (both generic groups, both interface-keyed groups, the single "
         "generic locker; 2/3/73/251 shards) over 3-5 integer keys drawn from -1, -2, -3, -n, -n+-1, MinInt64(+1), MaxInt64(-1), "
         "MinInt32(-1), MaxInt32+1, MaxUint32(+1), -(2^40)-7, 2^62+5 and one small key, so that every site computing a shard (single-key "
-        "path, sorting of a multi-key list, unlock path) must agree on the signed->uint64 conversion; first-touch schedules are sent as compact pieces (cut where the "
+        "path, sorting of a multi-key list, unlock path) must agree on the signed->uint64 conversion; plus the classes fault-key (30 per quick run: ordered schedules on both generic "
+        "groups over 3-5 struct keys implementing remap.HitGroup/Bs, with 1-3 faulted Locks/RLocks - a key whose Hit()/ToBytes() panics at list "
+        "position >= 1, recovered by the caller, issued at quiescence and NOT a step: later observations must be the model's) and release-race "
+        "(6 plain members with an observed sequential drain + up to 3000 unrecorded bursts in which 3-5 two-key callers with descending shards and "
+        "one 10-18-key caller over many shards, pairwise disjoint, release at once from a spin barrier; a case only when a release is observed parked for good); first-touch schedules are sent as compact pieces (cut where the "
         "locker is empty, keys renumbered per piece); a case is non-trivial when it has at least 6 rounds and at some quiescent point a live "
         "caller was blocked (had not returned); distinct = distinct Coq case term (actions + observations + labels)"
     ),
